@@ -41,6 +41,18 @@ def strip_all_casts(x):
     return x
 
 
+def strip_init(x):
+    """value of a brace initialiser with one element, with casts removed"""
+    while isinstance(x, dict):
+        y = strip_all_casts(x)
+        if y.get('k') == 'ilist' and len(y['el']) == 1:
+            y = y['el'][0]
+        if y is x:
+            break
+        x = y
+    return x
+
+
 def walk(x):
     """pre-order generator over all expression/statement dicts below x"""
     stack = [x]
